@@ -12,6 +12,7 @@ import (
 	"fmt"
 	"html/template"
 	"os"
+	"os/exec"
 	"path/filepath"
 	"regexp"
 	"strings"
@@ -151,6 +152,8 @@ func c06Inputs(root string) []c06Input {
 	R := root
 	add("fs-nested-modules", g(1, "running", "main.main", "", R+"/run/main.go", 3)+g(2, "select", "example.com/m.X", "0x1", R+"/m/x.go", 10)+g(3, "select", "example.com/m/sub.Y", "0x2", R+"/m/sub/y.go", 11)+g(4, "select", "example.com/m/sub/deep.Z", "0x3", R+"/m/sub/deep/z.go", 12)+g(5, "select", "example.com/m2.W", "", R+"/m2/w.go", 13), fsOpts("gp1"), true)
 	add("fs-nested-modules-inner-first", g(1, "running", "example.com/m/sub.Y", "0x2", R+"/m/sub/y.go", 11)+g(2, "select", "example.com/m.X", "0x1", R+"/m/x.go", 10)+g(3, "select", "example.com/m/sub/deep.Z", "0x3", R+"/m/sub/deep/z.go", 12), fsOpts("gp1"), true)
+	add("fs-outer-module-only", g(1, "running", "example.com/m.X", "0x1", R+"/m/x.go", 10)+g(2, "select", "example.com/m.X2", "0x2", R+"/m/x.go", 12), fsOpts("gp1"), true)
+	add("fs-inner-module-only", g(1, "running", "example.com/m/sub/deep.Z", "0x3", R+"/m/sub/deep/z.go", 12)+g(2, "select", "example.com/m/sub.Y", "0x2", R+"/m/sub/y.go", 11), fsOpts("gp1"), true)
 	add("fs-overlapping-gopaths", g(1, "running", "example.com/a.A", "", "/remote/gp/src/example.com/a/a.go", 3)+g(2, "select", "pkg.F", "0x1", "/remote/gp/src/nested/src/pkg/f.go", 10)+g(3, "select", "pkg.G", "0x1", "/remote/gp/src/nested/src/pkg/g.go", 11)+g(4, "select", "github.com/u/dep.D", "", "/remote/gp/pkg/mod/github.com/u/dep@v1.0.0/d.go", 2), fsOpts("gp1", "gp1/src/nested"), true)
 	add("fs-overlapping-gopaths-reversed", g(1, "running", "pkg.F", "0x1", "/remote/gp/src/nested/src/pkg/f.go", 10)+g(2, "select", "example.com/a.A", "", "/remote/gp/src/example.com/a/a.go", 3)+g(3, "select", "pkg.G", "0x1", "/remote/gp/src/nested/src/pkg/g.go", 11), fsOpts("gp1/src/nested", "gp1"), true)
 	add("fs-two-gopaths-goroot", g(1, "running", "fmt.Println", "", "/remote/go/src/fmt/print.go", 3)+g(2, "select", "example.com/a.A", "", "/r1/src/example.com/a/a.go", 3)+g(3, "select", "example.com/b.B", "", "/r2/src/example.com/b/b.go", 4)+g(4, "select", "example.com/b.B2", "", "/r2/src/example.com/b/missing.go", 4), fsOpts("gp1", "gp2"), true)
@@ -374,5 +377,82 @@ func TestVerifC06History(t *testing.T) {
 			}
 		}
 		rec(nil)
+	}
+}
+
+// TestVerifC06Sub is run in a child process: it renders the inputs named in
+// VERIF_C06_SEQ one after the other and prints the digest of the last one.
+func TestVerifC06Sub(t *testing.T) {
+	seq := os.Getenv("VERIF_C06_SEQ")
+	root := os.Getenv("VERIF_C06_ROOT")
+	if seq == "" || root == "" {
+		return
+	}
+	inputs := c06Inputs(root)
+	last := ""
+	for _, name := range strings.Split(seq, ",") {
+		for i := range inputs {
+			if inputs[i].name == name {
+				d, p := c06Digest(&inputs[i], root)
+				last = h.Hash(d + p)
+			}
+		}
+	}
+	fmt.Printf("C06DIGEST %s\n", last)
+}
+
+func c06Child(root, seq string) string {
+	cmd := exec.Command(os.Args[0], "-test.run", "^TestVerifC06Sub$", "-test.count=1")
+	cmd.Env = append(os.Environ(), "VERIF_C06_SEQ="+seq, "VERIF_C06_ROOT="+root, "VERIF_OUT=", "VERIF_REPLAY=")
+	out, _ := cmd.CombinedOutput()
+	for _, l := range strings.Split(string(out), "\n") {
+		if strings.HasPrefix(l, "C06DIGEST ") {
+			return strings.TrimPrefix(l, "C06DIGEST ")
+		}
+	}
+	return "child-failed: " + trunc(string(out))
+}
+
+// TestVerifC06Processes: the result for an input does not depend on what the same
+// process handled before: for every ordered pair (thorough: triple) of inputs a
+// child process handles them in that order and the digest of the last one must
+// equal the digest a fresh child process computes for it alone.
+func TestVerifC06Processes(t *testing.T) {
+	r := h.Start("C06")
+	defer r.Finish(func(s string) { t.Error(s) })
+	if r.ReplayFile() != nil {
+		return
+	}
+	root, err := os.MkdirTemp(os.Getenv("VERIF_SCRATCH"), "c06p")
+	if err != nil {
+		t.Fatal(err)
+	}
+	defer os.RemoveAll(root)
+	c06FS(root)
+	inputs := c06Inputs(root)
+	fresh := map[string]string{}
+	seq := 0
+	for xi := range inputs {
+		for yi := range inputs {
+			seq++
+			if !r.MineIdx(seq) || r.Expired() {
+				continue
+			}
+			x, y := inputs[xi].name, inputs[yi].name
+			if _, ok := fresh[x]; !ok {
+				fresh[x] = c06Child(root, x)
+				if fresh[x] != c06Child(root, x) {
+					r.Report(&h.Viol{Fingerprint: "C06/two-fresh-processes-differ:" + x, Summary: "input " + x + ": two fresh processes give different output", Key: "fresh " + x, Reproduced: 5})
+				}
+				r.Add("child_processes", 2)
+			}
+			key := fmt.Sprintf("process-history %s then %s", y, x)
+			got := c06Child(root, y+","+x)
+			r.Add("child_processes", 1)
+			if got != fresh[x] {
+				r.Report(&h.Viol{Fingerprint: "C06/depends-on-earlier-input-in-process:" + x, Summary: fmt.Sprintf("input %s rendered after %s in the same process differs from its rendering in a fresh process", x, y), Key: key, Kind: "process-history", Expected: fresh[x], Observed: got, Reproduced: 5})
+			}
+			r.Record(key, xi != yi, fmt.Sprint(got == fresh[x])+x)
+		}
 	}
 }
